@@ -36,7 +36,7 @@ PROPS["C03"] = {
 
 PROPS["C03"]["groups"] += [
     {"pkg": "route", "hdir": "route", "specs": [spec("C03/dest/name-only", "VerifC03DestName")]},
-    {"pkg": "table", "hdir": "table", "specs": [spec("C03/aggroute/name-only", "VerifC03AggRouteName"), spec("C03/table/name-only", "VerifC03TableName")]},
+    {"pkg": "table", "hdir": "table", "specs": [spec("C03/aggroute/name-only", "VerifC03AggRouteName"), spec("C03/table/name-only", "VerifC03TableName"), spec("C03/table/dest-filter/name-only", "VerifC03TableDestName")]},
 ]
 
 PROPS["C01"] = {
@@ -57,12 +57,12 @@ PROPS["C03"]["groups"] += [
 ]
 
 PROPS["C18"] = {
-    "bounds": "tables with 1..3 entries per list (routes, blacklist, rewriters, aggregations), histories of 1..2 admin operations with free index/key (incl. unknown key, index beyond the end); routes with 1..3 destinations; concurrent runs: one dispatcher against an admin goroutine making two changes (add rewriter / blacklist entry, delete route), and two admin goroutines making one change each (4x4 operation pairs), every interleaving with at most 2 (thorough 4) preemptions at lock / atomic / channel operations",
+    "bounds": "tables with 1..3 entries per list (routes, blacklist, rewriters, aggregations), histories of 1..2 admin operations with free index/key (incl. unknown key, index beyond the end); routes with 1..3 destinations; a consistent-hashing route with 2 destinations (real ring, 100 replicas), 1..2 changes, held ring compared entry by entry; concurrent runs: one dispatcher against an admin goroutine making two changes (add rewriter / blacklist entry, delete route), and two admin goroutines making one change each (4x4 operation pairs), every interleaving with at most 2 (thorough 4) preemptions at lock / atomic / channel operations",
     "outside": "interleavings beyond the preemption bound or at plain memory accesses, and memory-model effects: beyond the bound the property is reduced to snapshot immutability + single snapshot load per dispatch + model-list equality (DESIGN.md C18)",
     "assumptions": ["copy-on-write reduction: if a published snapshot is never modified and each dispatch loads exactly one snapshot, any interleaving equals the change happening before or after the dispatch"],
     "groups": [
         {"pkg": "table", "hdir": "table", "specs": [spec("C18/table", "VerifC18Table"), spec("C18/readers", "VerifC18Readers"), spec("C18/table/n<=4,ops<=2", "VerifC18Table", {"maxn": "4"}, tier="thorough"), spec("C18/table/n<=2,ops<=3", "VerifC18Table", {"maxn": "2", "maxops": "3"}, tier="thorough")]},
-        {"pkg": "route", "hdir": "route", "specs": [spec("C18/route", "VerifC18Route")]},
+        {"pkg": "route", "hdir": "route", "specs": [spec("C18/route", "VerifC18Route"), spec("C18/hash-route", "VerifC18HashRoute")]},
         # interleavings as decision variables (bounded preemption at lock / atomic / channel operations)
         {"pkg": "table", "hdir": "table", "native_optional": True, "specs": [
             spec("C18/concurrent/dispatch-vs-addRewriter+delRoute/preemptions<=2", "VerifC18Concurrent", {"kind": "rewriter", "preemptions": "2"}),
@@ -110,6 +110,7 @@ PROPS["C19"] = {
     "assumptions": ["mutual exclusion by the global mutex + sequential specification imply linearizability to a max-register per name"],
     "groups": [
         {"pkg": "validate", "hdir": "validate", "specs": [spec("C19/step", "VerifC19Step"), spec("C19/seq", "VerifC19Seq"), spec("C19/fnv-injective", "VerifC19Injective")]},
+        {"pkg": "validate", "hdir": "validate", "opts": {"timeout_ms": 900000, "budget_s": 1500, "solver": "z3-new-t"}, "specs": [spec("C19/fnv-injective/len=4", "VerifC19Injective", {"len": "4"})]},
         {"pkg": "validate", "hdir": "validate", "native_optional": True, "specs": [
             spec("C19/concurrent/2-callers/preemptions<=1", "VerifC19Concurrent", {"preemptions": "1"}),
             spec("C19/concurrent/2-callers/preemptions<=2", "VerifC19Concurrent", {"preemptions": "2"}),
